@@ -9,7 +9,7 @@ from ..cfg import iter_stmts
 from .common import construct_of
 from .wave3 import _func, _method, _enclosing_ifs, _names
 from .sweep2 import _cmp_sense
-from .sweep3 import _none_test_name, _positive_conjunct
+from .sweep3 import _none_test_name, _positive_conjunct, _nots_above
 
 EXTRA: dict = {}
 
@@ -416,3 +416,315 @@ _add("C14", resolve_qubit_range_guard, "C14.17")
 _add("C14", slice_bounds_defaulted, "C14.18")
 _add("C06", slice_bounds_defaulted, "C06.21")
 _add("C09", subcircuit_builder_count, "C09.15")
+
+
+# ---------------------------------------------------------------- C08 / C03
+
+def _addr_call(st, attr):
+    """`address.<attr>(..)` / `self.address.<attr>(..)` as a statement."""
+    if isinstance(st, ast.Expr) and isinstance(st.value, ast.Call) and isinstance(st.value.func, ast.Attribute) and st.value.func.attr == attr:
+        recv = st.value.func.value
+        return (isinstance(recv, ast.Name) and recv.id == "address") or (isinstance(recv, ast.Attribute) and recv.attr == "address")
+    return False
+
+
+def trace_address_balance(ctx, rep, rule):
+    from ..cfg import CFG
+    ix = ctx.ix
+    rep.rule(rule, "the address of the walk is a stack: in every function of core.algorithm that pushes onto `address`, each statement handed out (yield) and each pop is reached through exactly one push, a push reaches the normal exit only through a pop, the last component follows the statement counter (`n = address[-1] = ..`), and trace_statements leaves a block early exactly when the trace's start is NOT below the current address and marks the walk started exactly when the start IS reached", floor=2)
+    seen = 0
+    done = set()
+    for f in ix.functions.values():
+        if not f.module.startswith("jaqalpaq.core.algorithm.") or isinstance(f.node, ast.Lambda):
+            continue
+        stmts = list(iter_stmts(f.body))
+        pushes = [st for st in stmts if _addr_call(st, "append")]
+        if not pushes or id(f.node) in done:
+            continue
+        done.add(id(f.node))
+        seen += 1
+        pops = [st for st in stmts if _addr_call(st, "pop")]
+        cfg = CFG(f.node.body)
+        pn = [cfg.node(st) for st in pushes]
+        qn = [cfg.node(st) for st in pops]
+        cons = construct_of(f, "address-stack")
+        bad = []
+        yields = [st for st in stmts if isinstance(st, ast.Expr) and isinstance(st.value, (ast.Yield, ast.YieldFrom))]
+        for y in yields:
+            if not cfg.must_pass_nodes(cfg.node(y), pn):
+                bad.append((y, "a statement is handed out before the address was extended for this block (its address is that of the enclosing block)"))
+        for p_, node in zip(pops, qn):
+            if not cfg.must_pass_nodes(node, pn):
+                bad.append((p_, "a pop is reached without a push: the enclosing block's component is removed"))
+        for p_, node in zip(pushes, pn):
+            reach = cfg.reachable_from(node, removed_nodes=qn)
+            if cfg.exit in reach:
+                bad.append((p_, "the function returns after this push without a pop: every later address is one level too deep"))
+            if any(o in reach for o in pn if o != node):
+                bad.append((p_, "a second push is reached without a pop in between"))
+        if not pops:
+            bad.append((pushes[0], "nothing is ever popped"))
+        for st, why in bad:
+            rep.violation(rule, cons, f"`{ast.unparse(st)[:60]}`: {why}; subcircuit discovery records wrong start/end addresses and the trace walk (emulation, readout assignment) follows them", f"{f.path}:{st.lineno}")
+        if not bad:
+            rep.ok(rule, cons, f"{len(pushes)} push(es), {len(pops)} pop(s), {len(yields)} yield(s): balanced on every path", f.loc())
+        # the last component follows the counter
+        ctr = [a for a in stmts if isinstance(a, ast.Assign) and any(isinstance(t, ast.Subscript) and ast.unparse(t).endswith("address[-1]") for t in a.targets)]
+        lone = [a for a in stmts if isinstance(a, ast.Assign) and any(isinstance(t, ast.Name) and t.id == "n" for t in a.targets) and a not in ctr]
+        if yields:
+            cons2 = construct_of(f, "address-counter")
+            wrong = []
+            for a in lone:
+                # allowed when the value is pushed before anything is handed out
+                if any(cfg.node(y) in cfg.reachable_from(cfg.node(a), removed_nodes=pn) for y in yields):
+                    wrong.append((a, "the counter moves on without the address"))
+            for a in ctr:
+                if not any(isinstance(t, ast.Name) and t.id == "n" for t in a.targets):
+                    wrong.append((a, "the address moves on without the counter"))
+                elif isinstance(a.value, ast.BinOp) and not (isinstance(a.value.op, ast.Add) and isinstance(a.value.right, ast.Constant) and a.value.right.value == 1 and isinstance(a.value.left, ast.Name) and a.value.left.id == "n"):
+                    wrong.append((a, "the step is not `n + 1`"))
+            if not ctr:
+                wrong.append((yields[0], "the last component of the address is never advanced"))
+            for a, why in wrong:
+                rep.violation(rule, cons2, f"`{ast.unparse(a)[:60]}`: {why} -- every statement of a block is recorded under the same address, or the loop does not advance", f"{f.path}:{a.lineno}")
+            if not wrong:
+                rep.ok(rule, cons2, f"{len(ctr)} joint updates of n and address[-1]", f.loc())
+    ts = ix.find_method("jaqalpaq.core.algorithm.visitor.Visitor", "trace_statements")
+    if ts is not None:
+        cons = construct_of(ts, "start-tests")
+        for st in iter_stmts(ts.body):
+            if isinstance(st, ast.If) and "start" in _names(st.test) and "address" in _names(st.test):
+                sense = _cmp_sense(st.test)
+                sliced = any(isinstance(x, ast.Slice) for x in ast.walk(st.test))
+                returns = any(isinstance(s, ast.Return) for s in st.body)
+                marks = any(isinstance(s, ast.Assign) and "started" in ast.unparse(s.targets[0]) for s in st.body)
+                if returns and sliced:
+                    if sense == "ne":
+                        rep.ok(rule, cons, f"`if {ast.unparse(st.test)}: return`", f"{ts.path}:{st.lineno}")
+                    elif sense == "eq":
+                        rep.violation(rule, cons, f"`if {ast.unparse(st.test)}: return` leaves exactly the blocks that contain the start of the trace: the emulator never reaches the subcircuit it was asked to run", f"{ts.path}:{st.lineno}")
+                    else:
+                        rep.undecided(rule, cons, f"`if {ast.unparse(st.test)}`", f"{ts.path}:{st.lineno}")
+                elif marks:
+                    if sense == "eq":
+                        rep.ok(rule, cons, f"`if {ast.unparse(st.test)}: started`", f"{ts.path}:{st.lineno}")
+                    elif sense == "ne":
+                        rep.violation(rule, cons, f"`if {ast.unparse(st.test)}` marks the walk as started everywhere but at the start of the trace: gates before the prepare_all are emulated too", f"{ts.path}:{st.lineno}")
+                    else:
+                        rep.undecided(rule, cons, f"`if {ast.unparse(st.test)}`", f"{ts.path}:{st.lineno}")
+        cons = construct_of(ts, "end-tests")
+        for c in ast.walk(ts.node):
+            if isinstance(c, ast.Compare) and "trace.end" in ast.unparse(c) and not any(isinstance(p_, ast.Assert) and any(x is c for x in ast.walk(p_)) for p_ in ast.walk(ts.node)):
+                s_ = _above(c, "trace.end")
+                if s_ is None:
+                    rep.undecided(rule, cons, f"`{ast.unparse(c)}`", f"{ts.path}:{c.lineno}")
+                elif s_ and _nots_above(ts.node, c) % 2 == 0:
+                    rep.ok(rule, cons, f"`{ast.unparse(c)}`: past the end of the trace", f"{ts.path}:{c.lineno}")
+                else:
+                    rep.violation(rule, cons, f"`{ast.unparse(c)}` (as used) holds BEFORE the end of the trace: the walk of a block stops after its first statement, or treats every trace as one that wraps around a loop", f"{ts.path}:{c.lineno}")
+    if seen == 0:
+        rep.undecided(rule, "core.algorithm:address-stack", "no function pushes onto an address")
+
+
+_add("C08", trace_address_balance, "C08.21")
+_add("C03", trace_address_balance, "C03.13")
+
+
+# ---------------------------------------------------------------- C03: shape of the sparse product
+
+def _parents(root):
+    par = {}
+    for n in ast.walk(root):
+        for c in ast.iter_child_nodes(n):
+            par[id(c)] = n
+    return par
+
+
+def sparse_product_shape(ctx, rep, rule):
+    """vec = U * inp, with U the gate's dense matrix embedded on the acted
+    qubits.  The arithmetic is not evaluated; what is decided is that the
+    pieces are wired the way any correct version of this loop nest needs."""
+    ix = ctx.ix
+    ms = _method(ix, "jaqalpaq.emulator.unitary.UnitarySerializedEmulator", "_make_subcircuit")
+    rep.rule(rule, "shape of the emulator's sparse product `out[i] += in[j] * U[r, c]`: r is decoded from the OUTPUT index i and c is the sub-index from which the INPUT index j is encoded; both decodings walk the same qubit list in the same order with a bit that starts at 1 and is doubled once per qubit (outside the conditional); a qubit's bit is tested positively, cleared from the bystander mask and set with `1 << qubit`; j starts from the cleared mask; and before each gate the two buffers are exchanged and the output cleared", floor=5)
+    par = _parents(ms.node)
+    base = construct_of(ms, "product")
+    acc = None
+    for a in ast.walk(ms.node):
+        if isinstance(a, ast.AugAssign) and isinstance(a.op, ast.Add) and isinstance(a.target, ast.Subscript) and isinstance(a.value, ast.BinOp) and isinstance(a.value.op, ast.Mult):
+            l, r = a.value.left, a.value.right
+            if isinstance(l, ast.Subscript) and isinstance(r, ast.Subscript) and (isinstance(l.slice, ast.Tuple) != isinstance(r.slice, ast.Tuple)):
+                acc = a
+    if acc is None:
+        rep.undecided(rule, base, "no accumulation of the form out[i] += in[j] * U[r, c]", ms.loc())
+        return
+    l, r = acc.value.left, acc.value.right
+    umat, inref = (l, r) if isinstance(l.slice, ast.Tuple) else (r, l)
+    names_ok = all(isinstance(x, ast.Name) for x in (acc.target.value, acc.target.slice, inref.value, inref.slice, umat.value)) and len(umat.slice.elts) == 2 and all(isinstance(e, ast.Name) for e in umat.slice.elts)
+    if not names_ok:
+        rep.undecided(rule, base, f"`{ast.unparse(acc)}`: operands are not plain names", f"{ms.path}:{acc.lineno}")
+        return
+    outv, iname, inv, jname = acc.target.value.id, acc.target.slice.id, inref.value.id, inref.slice.id
+    rname, cname = (e.id for e in umat.slice.elts)
+    loc = lambda n: f"{ms.path}:{n.lineno}"
+    # enclosing loops, innermost first
+    fors = []
+    n = acc
+    while id(n) in par:
+        n = par[id(n)]
+        if isinstance(n, ast.For):
+            fors.append(n)
+    iloop = next((f for f in fors if isinstance(f.target, ast.Name) and f.target.id == iname), None)
+    if iloop is None:
+        rep.undecided(rule, base, f"no loop over the output index `{iname}`", loc(acc))
+        return
+    gloop = next((f for f in fors[fors.index(iloop) + 1:]), None)
+
+    def ors(var, root):
+        """[(AugAssign `var |= e`, guarding If or None)] below root"""
+        out = []
+        for a in ast.walk(root):
+            if isinstance(a, ast.AugAssign) and isinstance(a.op, ast.BitOr) and isinstance(a.target, ast.Name) and a.target.id == var:
+                p_ = par.get(id(a))
+                out.append((a, p_ if isinstance(p_, ast.If) and a in p_.body else None))
+        return out
+
+    def inner_for(node):
+        n = node
+        while id(n) in par:
+            n = par[id(n)]
+            if isinstance(n, ast.For):
+                return n
+        return None
+
+    # --- which sub-index is decoded from i, which one encodes j
+    cons = construct_of(ms, "product:element")
+    j_or = [x for x in ors(jname, iloop)]
+    in_sub = None
+    for a, g in j_or:
+        if g is not None:
+            t, neg = _fold_not(g.test)
+            if isinstance(t, ast.BinOp) and isinstance(t.op, ast.BitAnd) and isinstance(t.left, ast.Name):
+                in_sub = t.left.id
+    cand_out = [v for v in (rname, cname) if v != in_sub and ors(v, iloop)]
+    out_sub = cand_out[0] if len(cand_out) == 1 else None
+    if in_sub is None or out_sub is None:
+        rep.undecided(rule, cons, f"cannot tell which of `{rname}`, `{cname}` is decoded from `{iname}` and which encodes `{jname}`", loc(acc))
+        return
+    if (rname, cname) == (out_sub, in_sub):
+        rep.ok(rule, cons, f"`{ast.unparse(acc)}`: row from the output index, column from the input index", loc(acc))
+    elif (rname, cname) == (in_sub, out_sub):
+        rep.violation(rule, cons, f"`{ast.unparse(acc)}` multiplies with the TRANSPOSED matrix: `{rname}` encodes the input index and `{cname}` is decoded from the output index; every gate whose matrix is not symmetric (Sy, Rz, CX read as target-control ...) acts as its transpose", loc(acc), witness="prepare_all; Py q[0]; measure_all")
+    else:
+        rep.undecided(rule, cons, f"`{ast.unparse(umat)}`", loc(acc))
+    if outv == inv:
+        rep.violation(rule, cons, f"`{ast.unparse(acc)}` reads and writes the same buffer", loc(acc))
+
+    # --- the two decodings
+    out_or = ors(out_sub, iloop)
+    loops = []
+    for what, lst in (("row", out_or), ("column", j_or)):
+        for a, g in lst:
+            lp = inner_for(a)
+            if lp is not None and lp is not iloop and (a, g, lp, what) not in loops:
+                loops.append((a, g, lp, what))
+    cons = construct_of(ms, "product:decoding")
+    if len(loops) != 2:
+        rep.undecided(rule, cons, f"{len(loops)} decoding loops recognised (expected one for the row and one for the column)", loc(iloop))
+        return
+    iters = {ast.unparse(lp.iter) for _a, _g, lp, _w in loops}
+    if len(iters) == 1:
+        rep.ok(rule, cons, f"row and column are decoded over `{iters.pop()}`", loc(iloop))
+    else:
+        rep.violation(rule, cons, f"the row is decoded over one sequence and the column over another ({sorted(iters)}): for a gate on two or more qubits the two sides disagree about which qubit is which (CX becomes a permutation of CX)", loc(iloop), witness="prepare_all; Px q[1]; CX q[1] q[0]; measure_all")
+    for a, g, lp, what in loops:
+        k = lp.target.id if isinstance(lp.target, ast.Name) else None
+        cons = construct_of(ms, f"product:{what}-bits")
+        probs = []
+        # the guard
+        if g is None:
+            probs.append((a, "is unconditional"))
+            bitn = None
+        else:
+            t, neg = _fold_not(g.test)
+            if neg:
+                probs.append((g, f"`if {ast.unparse(g.test)}` is negated: the sub-index gets the complement of the qubits' bits"))
+            bitn = None
+            if what == "column" and isinstance(t, ast.BinOp) and isinstance(t.right, ast.Name):
+                bitn = t.right.id
+        if what == "row":
+            # a |= bit under `if n_high`, n_high = mask & (1 << k), mask ^= n_high
+            bitn = a.value.id if isinstance(a.value, ast.Name) else None
+            hv = g.test if g is not None else None
+            hv, _neg = _fold_not(hv) if hv is not None else (None, False)
+            hdef = None
+            if isinstance(hv, ast.Name):
+                for d in lp.body:
+                    if isinstance(d, ast.Assign) and isinstance(d.targets[0], ast.Name) and d.targets[0].id == hv.id:
+                        hdef = d
+            if hdef is None:
+                probs.append((lp, "the tested value is not defined in the loop"))
+            else:
+                v = hdef.value
+                shift = next((b for b in ast.walk(v) if isinstance(b, ast.BinOp) and isinstance(b.op, ast.LShift)), None)
+                if not (isinstance(v, ast.BinOp) and isinstance(v.op, ast.BitAnd) and shift is not None):
+                    probs.append((hdef, f"`{ast.unparse(hdef)}` is not `mask & (1 << qubit)`"))
+                else:
+                    if not (isinstance(shift.left, ast.Constant) and shift.left.value == 1 and isinstance(shift.right, ast.Name) and shift.right.id == k):
+                        probs.append((hdef, f"`{ast.unparse(shift)}` is not `1 << {k}`"))
+                    maskn = next((x.id for x in (v.left, v.right) if isinstance(x, ast.Name)), None)
+                    clears = [c for c in lp.body if isinstance(c, ast.AugAssign) and isinstance(c.target, ast.Name) and c.target.id == maskn and isinstance(c.op, (ast.BitXor, ast.BitAnd, ast.Sub))]
+                    if not clears:
+                        probs.append((lp, f"the acted qubit's bit is never cleared from `{maskn}`: the input index keeps the output's bit whatever the column says"))
+                    inits = [d for d in iloop.body if isinstance(d, ast.Assign) and isinstance(d.targets[0], ast.Name) and d.targets[0].id == maskn]
+                    if not (inits and isinstance(inits[0].value, ast.Name) and inits[0].value.id == iname):
+                        probs.append((iloop, f"`{maskn}` does not start as the output index `{iname}`"))
+                    # j starts from the cleared mask
+                    jinit = [d for d in ast.walk(iloop) if isinstance(d, ast.Assign) and isinstance(d.targets[0], ast.Name) and d.targets[0].id == jname]
+                    if not (jinit and all(isinstance(d.value, ast.Name) and d.value.id == maskn for d in jinit)):
+                        probs.append((jinit[0] if jinit else iloop, f"`{jname}` does not start from the bystander mask `{maskn}`"))
+        else:
+            v = a.value
+            if not (isinstance(v, ast.BinOp) and isinstance(v.op, ast.LShift) and isinstance(v.left, ast.Constant) and v.left.value == 1 and isinstance(v.right, ast.Name) and v.right.id == k):
+                probs.append((a, f"`{ast.unparse(a)}` does not set `1 << {k}`"))
+        # the running bit
+        if bitn is None:
+            probs.append((lp, "no running bit recognised"))
+        else:
+            holder = par.get(id(lp))
+            body = getattr(holder, "body", [])
+            before = [d for d in body[:body.index(lp)] if isinstance(d, ast.Assign) and isinstance(d.targets[0], ast.Name) and d.targets[0].id == bitn] if lp in body else []
+            if not before:
+                probs.append((lp, f"`{bitn}` is not reset before the loop"))
+            elif not (isinstance(before[-1].value, ast.Constant) and before[-1].value.value == 1):
+                probs.append((before[-1], f"`{ast.unparse(before[-1])}`: the running bit does not start at 1"))
+            steps = [d for d in lp.body if isinstance(d, ast.AugAssign) and isinstance(d.target, ast.Name) and d.target.id == bitn]
+            if len(steps) != 1:
+                probs.append((lp, f"`{bitn}` is not advanced exactly once per qubit, outside the conditional"))
+            elif not ((isinstance(steps[0].op, ast.LShift) and isinstance(steps[0].value, ast.Constant) and steps[0].value.value == 1) or (isinstance(steps[0].op, ast.Mult) and isinstance(steps[0].value, ast.Constant) and steps[0].value.value == 2)):
+                probs.append((steps[0], f"`{ast.unparse(steps[0])}` does not double the running bit"))
+        for node, why in probs:
+            rep.violation(rule, cons, f"{why} -- the {what} handed to the gate's matrix is not the acted qubits' bits of the index, so the emulated state is not U applied to the previous one", loc(node))
+        if not probs:
+            rep.ok(rule, cons, f"bits of `{ast.unparse(lp.iter)}` -> `{out_sub if what == 'row' else in_sub}`", loc(lp))
+    # --- buffers
+    cons = construct_of(ms, "product:buffers")
+    if gloop is None:
+        rep.undecided(rule, cons, "no loop over the gates around the product", loc(iloop))
+        return
+    pre = []
+    for d in gloop.body:
+        if d is iloop or any(x is iloop for x in ast.walk(d)):
+            break
+        pre.append(d)
+    swap = [d for d in pre if isinstance(d, ast.Assign) and isinstance(d.targets[0], ast.Tuple) and isinstance(d.value, ast.Tuple) and [ast.unparse(e) for e in d.targets[0].elts] == [ast.unparse(e) for e in reversed(d.value.elts)] and {ast.unparse(e) for e in d.value.elts} == {outv, inv}]
+    clear = [d for d in pre if isinstance(d, ast.Assign) and isinstance(d.targets[0], ast.Subscript) and isinstance(d.targets[0].value, ast.Name) and d.targets[0].value.id == outv and isinstance(d.targets[0].slice, ast.Slice) and isinstance(d.value, ast.Constant) and d.value.value == 0]
+    if swap and clear and pre.index(swap[-1]) < pre.index(clear[-1]):
+        rep.ok(rule, cons, f"`{ast.unparse(swap[-1])}` then `{ast.unparse(clear[-1])}` before every gate", loc(swap[-1]))
+    elif not swap:
+        rep.violation(rule, cons, f"the buffers `{outv}` and `{inv}` are not exchanged before a gate is applied: every gate acts on the state before the previous gate (or on uninitialised memory)", loc(gloop))
+    else:
+        rep.violation(rule, cons, f"`{outv}` is not cleared after the exchange: the amplitudes of the state two gates back are added to the result", loc(gloop))
+
+
+_add("C03", sparse_product_shape, "C03.14")
